@@ -352,7 +352,7 @@ func (f *facts) flowTables(conn, tr *ast.File) string {
 			}
 			return ""
 		}
-		rows, unk := f.runScenariosFixed(fd, []string{"peekFailed", "idMatches", "alone", "deadlinePassed"}, map[string]bool{"hasDeadline": true}, nil, classify, effect)
+		rows, unk := f.runScenariosFixed(fd, []string{"peekFailed", "idMatches", "alone", "deadlinePassed", "hasDeadline"}, nil, nil, classify, effect)
 		emit("waitResponseFlow", rows, unk)
 	}
 
@@ -632,8 +632,11 @@ func (f *facts) flowTables(conn, tr *ast.File) string {
 			}
 			return ""
 		}
-		rows, unk := f.runScenariosFixed(fd, []string{"dialFailed", "sasl", "splitFailed", "authFailed"},
-			map[string]bool{"hasTimeout": false, "noDeadline": true, "ctxHasDeadline": true}, nil, classify, effect)
+		// ctxHasDeadline is a dimension of its own: what the dial does must not depend on it (only the deadline bookkeeping may)
+		// configuration flags (Timeout, Deadline, the context's deadline) are dimensions: nothing but the deadline bookkeeping
+		// may depend on them (round 6: a fixed flag is an unexamined configuration)
+		rows, unk := f.runScenariosFixed(fd, []string{"dialFailed", "sasl", "splitFailed", "authFailed", "ctxHasDeadline", "hasTimeout", "noDeadline"},
+			nil, nil, classify, effect)
 		emit("dialerConnectFlow", rows, unk)
 	}
 	if fd := findFunc(tr, "connGroup", "connect"); fd != nil {
@@ -711,8 +714,8 @@ func (f *facts) flowTables(conn, tr *ast.File) string {
 			}
 			return ""
 		}
-		rows, unk := f.runScenariosFixed(fd, []string{"dialFailed", "apiVersionsFailed", "versionsErrorCode", "sasl", "splitFailed", "authFailed"},
-			map[string]bool{"manyAddresses": false, "tls": false, "noServerName": false},
+		rows, unk := f.runScenariosFixed(fd, []string{"dialFailed", "apiVersionsFailed", "versionsErrorCode", "sasl", "splitFailed", "authFailed", "tls", "manyAddresses"},
+			map[string]bool{"noServerName": true},
 			map[string]bool{"leave-loop": true, "next-iteration": true}, classify, effect)
 		emit("transportConnectFlow", rows, unk)
 	}
